@@ -293,6 +293,9 @@ pub const ALL_STEPS: [Step; 23] = [
 #[derive(Debug, Clone, Serialize, Deserialize, PartialEq, Eq, Hash)]
 pub struct Case {
     pub steps: Vec<Step>,
+    /// the probed node is a lite node (its handlers for ghost chains run, it validates in SPV mode)
+    #[serde(default)]
+    pub lite: bool,
 }
 
 /// The canonical flow: connect, handshake, sync six blocks, pool a transaction, produce a block.
@@ -310,12 +313,12 @@ pub fn canonical() -> Vec<Step> {
     v
 }
 
-pub fn run_pass(steps: &[Step], l: usize, write: bool, pre: &Built, rec: &mut Vec<Obs>, handlers_seen: &mut BTreeSet<String>) -> Option<(String, String)> {
+pub fn run_pass(steps: &[Step], l: usize, write: bool, pre: &Built, rec: &mut Vec<Obs>, handlers_seen: &mut BTreeSet<String>, lite: bool) -> Option<(String, String)> {
     let ncfg = NodeCfg { gp: 100, heartbeat: 100, social_stake: 0, loading_completed: true, prune: 8 };
     let chain = pre.main_chain_blocks();
     let clock = Arc::new(AtomicU64::new(6_000_000));
     // node under probe: knows the first 2 blocks, connects to the peer which has all of them
-    let mut n = NetNode::new(0, ncfg, clock.clone(), 1, 3, MemIO::new());
+    let mut n = NetNode::new_with(0, ncfg, clock.clone(), 1, 3, MemIO::new(), lite);
     let mut p = NetNode::new(1, ncfg, clock.clone(), 0, 3, MemIO::new());
     n.ct.produce_blocks_by_timer = true;
     let locks = LockSet::of(&n);
@@ -537,7 +540,7 @@ pub fn run_case(case: &Case, pre: &Built) -> (Vec<(String, String)>, Info, Vec<O
     for l in 0..5 {
         for write in [true, false] {
             let mut rec = vec![];
-            if let Some((site, msg)) = run_pass(&case.steps, l, write, pre, &mut rec, &mut info.handlers) {
+            if let Some((site, msg)) = run_pass(&case.steps, l, write, pre, &mut rec, &mut info.handlers, case.lite) {
                 v.push((format!("C20|panic|site={site}"), format!("a handler panicked at {site} while lock {} was probed: {msg}", LOCK_NAMES[l])));
             }
             for o in rec {
@@ -589,20 +592,25 @@ fn eval(c: &mut Ctx, case: &Case, pre: &Built, counting: bool) -> Vec<(String, S
 }
 
 pub fn run(ctx: &mut Ctx) {
-    ctx.rule = "event sequences over a node built from the real routing, verification, consensus and mining threads talking to a second node: the canonical flow (init, connect, handshake, chain request, header hashes, fetches, verification, block addition, router updates, miner events, transaction from a peer, local golden ticket, timer-driven and direct block production, key list / services / ghost-chain request / chain request / API message / bogus block / fetch failure / stun peer / disconnect) plus generated permutations and repetitions of those steps; each sequence is replayed ten times, once per probed lock and probing mode (harness holds the lock for writing, or for reading so that only write acquisitions block). oracle (lockdep-style): for every observed (held h, acquiring L): rank(h) < rank(L) with config 3 < blockchain 4 < mempool 5 < peers 6 < wallet 7, unless a lock preceding both is write-held; a handler that cannot progress after the probed lock is released is reported as a re-entrancy hazard. evaluations = observed acquisitions under contention. non-trivial = an acquisition with at least one other lock held; distinct = (handler, acquired lock, held set)".into();
+    ctx.rule = "event sequences over a node built from the real routing, verification, consensus and mining threads talking to a second node: the canonical flow (init, connect, handshake, chain request, header hashes, fetches, verification, block addition, router updates, miner events, transaction from a peer, local golden ticket, timer-driven and direct block production, key list / services / ghost-chain request / chain request / API message / bogus block / fetch failure / stun peer / disconnect) plus generated permutations and repetitions of those steps, with the probed node as a full node or (canonical flow and a quarter of the generated ones) as a lite node; each sequence is replayed ten times, once per probed lock and probing mode (harness holds the lock for writing, or for reading so that only write acquisitions block). oracle (lockdep-style): for every observed (held h, acquiring L): rank(h) < rank(L) with config 3 < blockchain 4 < mempool 5 < peers 6 < wallet 7, unless a lock preceding both is write-held; a handler that cannot progress after the probed lock is released is reported as a re-entrancy hazard. evaluations = observed acquisitions under contention. non-trivial = an acquisition with at least one other lock held; distinct = (handler, acquired lock, held set)".into();
     ctx.assumptions.push("Only the first acquisition of the probed lock in a handler invocation that has to wait is observed (per mode); call paths in saito-rust/src/main.rs, network_controller.rs, saito-spammer and the saito-wasm entry points are not driven (they need live sockets / a JS host): the claim is 'no inversion on any driven path'.".into());
     ctx.extra.insert("undriven_sites".into(), json!(["saito-rust/src/main.rs", "saito-rust/src/network_controller.rs", "saito-spammer/src/transaction_generator.rs", "saito-wasm/src/saitowasm.rs"]));
     let pre = prefix();
-    let canon = Case { steps: canonical() };
+    let canon = Case { steps: canonical(), lite: false };
     ctx.samples.push(json!({"canonical_steps": canon.steps.len()}));
     for (k, w) in eval(ctx, &canon, &pre, true) {
         ctx.violation(&k, w, json!({"check": "canonical", "case": canon}));
     }
-    let strat = proptest::collection::vec((0usize..ALL_STEPS.len()).prop_map(|i| ALL_STEPS[i]), 0..30).prop_map(|extra| {
+    // the same flow with the probed node running as a lite node (ghost chain instead of header hashes)
+    let canon_lite = Case { steps: canonical(), lite: true };
+    for (k, w) in eval(ctx, &canon_lite, &pre, true) {
+        ctx.violation(&k, w, json!({"check": "canonical_lite", "case": canon_lite}));
+    }
+    let strat = (proptest::collection::vec((0usize..ALL_STEPS.len()).prop_map(|i| ALL_STEPS[i]), 0..30), prop_oneof![3 => Just(false), 1 => Just(true)]).prop_map(|(extra, lite)| {
         // the canonical prefix brings the node into a connected, syncing state; then generated steps
         let mut steps = canonical()[..20].to_vec();
         steps.extend(extra);
-        Case { steps }
+        Case { steps, lite }
     });
     let cases = ctx.tier.pick(300u32, 5000);
     pbt_run(ctx, "generated_flows", cases, strat, |c, case, counting| eval(c, case, &pre, counting));
